@@ -60,6 +60,8 @@ pub struct TrCfg {
     pub teardown: bool,
     /// keep a second (idle) sender handle alive so that tx0 runs the multi-writer paths
     pub multi_writer: bool,
+    /// the prefix runs exactly pre_send sends and pre_recv receives (concrete resting state)
+    pub exact: bool,
 }
 
 pub const QUICK: TrCfg = TrCfg {
@@ -73,6 +75,7 @@ pub const QUICK: TrCfg = TrCfg {
     pre_recv: 0,
     teardown: false,
     multi_writer: false,
+    exact: false,
 };
 
 pub fn traffic<F: Fl, const TOPO: u8, const OUTER: usize, const L0: u8, const L1: u8, const L2: u8>(c: &TrCfg) {
@@ -155,7 +158,7 @@ pub fn traffic<F: Fl, const TOPO: u8, const OUTER: usize, const L0: u8, const L1
     }
     // symbolic sequential prefix: ps sends, then pr receives on every stream
     if c.pre_send > 0 {
-        let ps: u8 = kani::any();
+        let ps: u8 = if c.exact { c.pre_send } else { kani::any() };
         kani::assume(ps <= c.pre_send);
         let mut i = 0;
         while i < c.pre_send {
@@ -166,7 +169,7 @@ pub fn traffic<F: Fl, const TOPO: u8, const OUTER: usize, const L0: u8, const L1
             }
             i += 1;
         }
-        let pr: u8 = kani::any();
+        let pr: u8 = if c.exact { c.pre_recv } else { kani::any() };
         kani::assume(pr <= c.pre_recv && pr <= ps);
         let mut s = 0;
         while s < nstreams {
@@ -189,7 +192,7 @@ pub fn traffic<F: Fl, const TOPO: u8, const OUTER: usize, const L0: u8, const L1
             }
             s += 1;
         }
-        kani::cover!(ps > 0 && pr == ps, "prefix wrapped or advanced the ring");
+        kani::cover!(c.exact || (ps > 0 && pr == ps), "prefix wrapped or advanced the ring");
     }
 
     run_concurrent::<Tr<F, TOPO, L0, L1, L2>, OUTER>();
@@ -298,6 +301,7 @@ pub const IN_CLONE: TrCfg = TrCfg {
     pre_recv: 1,
     teardown: true,
     multi_writer: false,
+    exact: true,
 };
 
 // consumer A is in the middle of clone(); its sibling B on the same stream and the producer run there
